@@ -92,6 +92,10 @@ def structured(tier):
                 yield (3, 1, script, evs)
         yield (2, 1, ["ooo", "ooo"], ["Z", "A:537", "C", "F:p:69"] + FAULTS[fault] + ["A:537", "F:p:69", "A:11037"])
         yield (3, 0, ["ooo", "ooo", "ooo"], ["C", "F:p:69", "Z", "C", "F:p:69"] + FAULTS[fault] + ["A:11037", "C", "F:p:69"])
+    # a LONG outage: 1300 consecutive failed attempts (7 h at the 20 s back-off) before one succeeds, and a shorter one with
+    # hung attempts; every attempt must happen, at its back-off deadline, and the connection recovers
+    yield (3, 1, ["ooo"] + ["e"] * 1300 + ["ooo"], ["C", "F:p:69", "X"] + ["A:20037"] * 1301 + ["A:537", "F:p:69", "F:f"])
+    yield (2, 1, ["ooo"] + ["e", "h"] * 40 + ["ooo"], ["C", "F:p:69", "A:10037"] + ["A:20037", "A:26037"] * 40 + ["A:20037", "A:537", "F:p:69"])
     # reconnect off: loss is announced, nothing reconnects, a later connect() works again
     for fault in FAULTS:
         for first in ("ooo", "e", "h"):
